@@ -10,7 +10,7 @@ if [ -n "$(git -C /repo status --porcelain --untracked-files=no)" ]; then
   echo "refusing to run: /repo has uncommitted changes" >&2; exit 2
 fi
 trap 'git -C /repo checkout -- . 2>/dev/null' EXIT
-names=("$@"); [ ${#names[@]} -eq 0 ] && names=($(ls seeded))
+names=("$@"); [ ${#names[@]} -eq 0 ] && names=($(ls seeded | grep -v "^_" | grep -v "\.tsv$"))
 printf "%-34s %-6s %-8s %s\n" seeded property caught kinds
 RES="$HERE/seeded/last_run.tsv"; [ $# -eq 0 ] && : > "$RES"
 for n in "${names[@]}"; do
